@@ -21,6 +21,7 @@ def run(ctx):
             continue
         classes.setdefault(r['lint'], []).append(r)
     n = 0
+    full_again = [None]
     for lint_name, rs in sorted(classes.items()):
         r = rs[0]
         obj = r['event']['obj']
@@ -30,6 +31,13 @@ def run(ctx):
         d2 = vlib.drive(ctx, exe, 'order', sub='confirm%d' % n, extra=['-only', obj])
         rej2, _ = histcommon.validate(ctx, os.path.join(d2, 'history.ndjson'), shards=2)
         hit = [x for x in rej2 if x['lint'] == lint_name and x['why'] == 'status-differs']
+        if not hit:
+            # not reproduced on that object alone (an input family that cannot be asked for by itself, or a verdict that depends on
+            # what was linted before): the whole sweep is repeated once - the real code doing it twice is the confirmation
+            if full_again[0] is None:
+                d3 = vlib.drive(ctx, exe, 'order', sub='confirm-full')
+                full_again[0], _ = histcommon.validate(ctx, os.path.join(d3, 'history.ndjson'))
+            hit = [x for x in full_again[0] if x['lint'] == lint_name and x['why'] == 'status-differs' and x['event']['obj'] == obj]
         if not hit:
             ctx.notes.append('unreproduced: %s on %s' % (lint_name, obj))
             continue
